@@ -294,6 +294,9 @@ bool DTDScanner::expandPERef( const   bool    scanExternal
             return false;
         }
 
+        // parameter entity references count against the entity expansion limit
+        fScanner->checkEntityExpansionLimit();
+
         //
         //  If the caller wants us to scan the external entity, then lets
         //  do that now.
@@ -364,6 +367,9 @@ bool DTDScanner::expandPERef( const   bool    scanExternal
         //
         if (!fReaderMgr->pushReader(valueReader, decl))
             fScanner->emitError(XMLErrs::RecursiveEntity, decl->getName());
+
+        // parameter entity references count against the entity expansion limit
+        fScanner->checkEntityExpansionLimit();
     }
 
     return true;
@@ -2071,6 +2077,9 @@ DTDScanner::scanEntityRef(XMLCh& firstCh, XMLCh& secondCh, bool& escaped)
             return EntityExp_Failed;
         }
 
+        // entity references in default attribute values count against the entity expansion limit
+        fScanner->checkEntityExpansionLimit();
+
         // If it starts with the XML string, then parse a text decl
         if (fScanner->checkXMLDecl(true))
             scanTextDecl();
@@ -2101,6 +2110,9 @@ DTDScanner::scanEntityRef(XMLCh& firstCh, XMLCh& secondCh, bool& escaped)
         //
         if (!fReaderMgr->pushReader(valueReader, decl))
             fScanner->emitError(XMLErrs::RecursiveEntity, decl->getName());
+
+        // entity references in default attribute values count against the entity expansion limit
+        fScanner->checkEntityExpansionLimit();
     }
 
     return EntityExp_Pushed;
